@@ -241,6 +241,9 @@ func cmdCheck(args []string) int {
 	verbose := fs.Bool("v", false, "verbose")
 	solver := fs.String("solver", "z3", "z3|z3-new|cvc5")
 	noReplay := fs.Bool("no-replay", false, "skip native replay")
+	noTV := fs.Bool("no-tv", false, "skip translator validation (concrete differential runs)")
+	tvOnly := fs.Bool("tv-only", false, "run only translator validation")
+	tvCompared, tvSkipped := 0, 0
 	if len(args) == 0 {
 		fatal(fmt.Errorf("check: property id required"))
 	}
@@ -338,6 +341,28 @@ func cmdCheck(args []string) int {
 		sort.Strings(names)
 		if len(names) == 0 && onlyRe == nil {
 			inconclusive = append(inconclusive, "no harness functions in "+g.Import)
+		}
+		cfgs := map[string]interp.HarnessConfig{}
+		for _, n := range names {
+			cfgs[n] = interp.HarnessConfig{Name: n, Fn: hs[n], Unwind: ck.Unwind}
+		}
+		if !*noTV && len(names) > 0 {
+			k := 6
+			if *tier == "thorough" {
+				k = 32
+			}
+			tv := translatorValidate(eng, workDir, g, pkgName, names, cfgs, k, seed, *tier == "thorough", extra)
+			tvCompared += tv.Compared
+			tvSkipped += tv.Skipped
+			for _, m := range tv.Mismatches {
+				inconclusive = append(inconclusive, "translator validation: "+m)
+			}
+			if *verbose {
+				fmt.Printf("translator validation %s: %d concrete runs agree natively, %d skipped, %d mismatches\n", g.Import, tv.Compared-len(tv.Mismatches), tv.Skipped, len(tv.Mismatches))
+			}
+		}
+		if *tvOnly {
+			continue
 		}
 		for _, n := range names {
 			cfg := interp.HarnessConfig{Name: n, Fn: hs[n], Unwind: ck.Unwind}
@@ -453,7 +478,8 @@ func cmdCheck(args []string) int {
 	for _, m := range inconclusive {
 		fmt.Printf("INCONCLUSIVE property=%s reason=%s\n", id, m)
 	}
-	writeEvidence(id, *tier, seed, ck, hes, inconclusive, newViol, replays, time.Since(t0))
+	writeEvidence(id, *tier, seed, ck, hes, inconclusive, newViol, replays+tvCompared, time.Since(t0))
+	_ = tvSkipped
 	if newViol > 0 {
 		return 1
 	}
